@@ -381,6 +381,8 @@ def resolve(ev, st, t):
 
 
 def tick_depth(w, base):
+    """number of opaque environment reads (timer calls) since `base` -- or since the most recent loop havoc of the
+    world token, whichever comes first (a lower bound on the reads of the path)"""
     d = 0
     seen = 0
     while w is not base and seen < 100000:
@@ -389,9 +391,9 @@ def tick_depth(w, base):
             d += 1
             w = w.args[0]
         elif w.op == "ite":
-            return min(tick_depth(w.args[1], base), tick_depth(w.args[2], base))
+            return d + min(tick_depth(w.args[1], base), tick_depth(w.args[2], base))
         else:
-            return 0
+            return d
     return d
 
 
